@@ -36,11 +36,11 @@ PLAN = {
     "C02": dict(
         title="Each layer's forward pass computes its defining operator",
         level="proof",
-        verus=["C02_convolve.rs", "C02_deconv_forward.rs", "C02_maxpool_forward.rs", "C02_pad3d.rs"],
+        verus=["C02_convolve.rs", "C02_deconv_forward.rs", "C02_maxpool_forward.rs", "C02_pad3d.rs", "C17_loopback.rs"],
         kani=True,
         undecided_clauses=["max-pool: inputs are required to be above f32::MIN (the scan's start value); an element equal to f32::MIN in a 1x1 window would "
                            "record index (0,0)",
-                           "dense W x + b is a bounded Kani harness (2->2); a network's prediction = composition of its layers: read (Network::_forward), not verified",
+                           "dense W x + b is a bounded Kani harness (2->2); Network::_forward = chained application of a layer range is proved (unit network._forward); that Network::forward calls it once per layer with the previous output (plus skip / loop handling, C16 / C17) is read",
                            "the glue inside Convolution/Deconvolution/Maxpool::forward around the verified kernels (activation call, flatten flag) is by program order"],
     ),
     "C08": dict(
@@ -153,6 +153,21 @@ PLAN = {
         undecided_clauses=["the gradient clause for additive accumulation (reverse walk of Network::backward): not verified",
                            "the tensor operations themselves are abstract in the skip unit (their cell-wise meaning is C15's, reshape's is C14's)",
                            "the element-count comparison inside connect() (two matches over layer kinds + assert_eq!) is not part of the verified regions"],
+    ),
+    "C17": dict(
+        title="Loop connections compute the accumulated repeated sub-network",
+        level="proof",
+        verus=["C17_loopback.rs"],
+        kani=False,
+        undecided_clauses=[
+            "tensors, shapes and each layer's forward pass are abstract (what a layer computes is C02, the element-wise meaning of "
+            "add/sub/mul/mean is C15, reshape is C14)",
+            "the max-pool index bookkeeping of the block (five `if let Some(Some(max)) = maxpools.get_mut(j)` statements and the Mean arm's "
+            "`fmax` collection) is dropped from the unit after a syntactic non-interference scan; a panic inside it is a permitted outcome",
+            "where the block sits in Network::forward (layers 0..=i have run, so preactivated has i+1 and activated i+2 entries) and that "
+            "Network::loopback only records into <= outof with matching shapes: read, not verified",
+            "the 'equals the plain network with the range repeated k+1 times' sentence is the Overwrite instance of the proved contract "
+            "(last pass = k+1-fold application, each pass starting from the previous pass's output); the plain network is not built and compared"],
     ),
     "C18": dict(
         title="The random generator stays in range and shuffling is a safe permutation",
@@ -334,6 +349,22 @@ MANIFEST_TEXT = {
         note="vstd's specification of std::collections::HashMap; the element-count comparison in the middle of connect() is dropped from the "
              "unit; the forward-pass accumulation clause is not yet covered.",
     ),
+    "C17": dict(
+        category="proof",
+        technique="Verus contracts on the WHOLE Network::_forward and on the loop-back region of Network::forward over an abstract tensor algebra",
+        design_ref="DESIGN.md §5 C17",
+        text="Proof for all networks, ranges into <= i, iteration counts, accumulations, input-skip flags and inputs: (1) the whole "
+             "Network::_forward (mechanically extracted, rewrites R19/R23) returns, for a layer range, exactly the chained application of the "
+             "layers (layer from+t processes the output of layer from+t-1, the given input for t = 0): pre-activations, activations and "
+             "max-pool indices; (2) the loop-back block of Network::forward (extracted region, rewrites R13/R16/R19-R22/R24, calling the "
+             "verified _forward through its contract) re-runs layers into..=i exactly k times, pass t starting from the output of pass t-1 "
+             "(from the ordinary output for t = 0) brought to the input shape of layer `into` and with the ORIGINAL input of that layer added iff "
+             "input skips are on, and leaves in activated[p] (in particular the value passed on, p = i+1) and preactivated the configured "
+             "accumulation - add / subtract / multiply folds in pass order, mean over all, overwrite = last pass - of the ordinary value with the k "
+             "re-run values; entries before the range are untouched, lengths unchanged, nothing happens without a loop connection.",
+        note="abstract tensor algebra (uninterpreted t_add/t_sub/t_mul/t_mean/t_reshape, layer forward functions); vstd HashMap / Vec specs; "
+             "max-pool index bookkeeping dropped from the unit (scanned); a panic is a permitted outcome (R13).",
+    ),
     "C18": dict(
         category="proof",
         technique="Kani function contract on Generator::generate (proof_for_contract, all states), stub_verified reuse in shuffle",
@@ -352,5 +383,3 @@ NOT_APPLICABLE = {
            "(iterator/rayon adapters are outside Verus' subset; CBMC cannot symbolically execute code that moves and drops Tensors held in Vecs)",
     "C05": "quantifies over thread schedules of rayon's pool; Kani has no thread support and Verus has no specification of rayon",
 }
-NOT_APPLICABLE["C17"] = ("the loop-back block of Network::forward (120 lines over Vec<Vec<Tensor>> with _forward calls) is out of reach of CBMC as a whole and its "
-                         "regions have not been built in this round - nothing is claimed")
